@@ -246,7 +246,12 @@ def run(ctx):
         v_ = r.sc.resolve(sites_[0].value) if len(sites_) == 1 else None
         while isinstance(v_, ast.Call) and txt(v_.func) in ("list", "tuple") and len(v_.args) == 1:
             v_ = v_.args[0]
-        if isinstance(v_, (ast.ListComp, ast.GeneratorExp)) and len(v_.generators) == 1 and v_.generators[0].ifs:
+        it_ = v_.generators[0].iter if isinstance(v_, (ast.ListComp, ast.GeneratorExp)) and len(v_.generators) == 1 else None
+        if it_ is not None and isinstance(it_, ast.Call) and txt(it_.func) in (f"{r.G}.nodes", f"{r.G}.nodes.data", f"{r.G}.nodes.items", f"{r.G}.nodes.values") \
+                and not any(isinstance(x, ast.Call) and txt(x.func) == "sorted" for x in ast.walk(v_)):
+            o.violated(rf, sites_[0], f"the joint degrees are collected in the graph's INSERTION order (`{txt(it_)[:60]}`), not by vertex label 0..order-1: for a network whose vertices were "
+                                      "not inserted as 0, 1, 2, .. entry i is no longer the joint degree of vertex i", shape_free=True)
+        elif isinstance(v_, (ast.ListComp, ast.GeneratorExp)) and len(v_.generators) == 1 and v_.generators[0].ifs:
             o.violated(rf, sites_[0], f"only the vertices that pass `{txt(v_.generators[0].ifs[0])[:80]}` contribute their joint degree: the returned sequence is shorter than the vertex "
                                       "set and every later entry is attributed to the wrong vertex", shape_free=True)
         elif d is None:
